@@ -12,8 +12,13 @@ extern int mpt_stream_reply(MPT_STRUCT(stream) *srm, size_t len, const void *val
 	if (mpt_stream_flags(&srm->_info) & MPT_STREAMFLAG(MesgActive)) {
 		return MPT_ERROR(BadArgument);
 	}
-	if (len && (ret = mpt_stream_push(srm, len, val)) < 0) {
-		return ret;
+	if (len && (ret = mpt_stream_push(srm, len, val)) < (ssize_t) len) {
+		/* incomplete id must not reach the peer */
+		if (ret < 0) {
+			return ret;
+		}
+		mpt_stream_push(srm, 1, 0);
+		return MPT_ERROR(MissingBuffer);
 	}
 	if (msg) {
 		if ((ret = mpt_stream_append(srm, msg)) < 0) {
